@@ -264,7 +264,7 @@ def sx_to_cond(sx):
     return None if not sx else sx_to_expr(sx[0])
 
 
-def diff_views(exp, got):
+def diff_views(exp, got, sort_catalog=False):
     out = []
     for key in ("ptype", "db_cp"):
         if exp[key] != got[key]:
@@ -277,8 +277,13 @@ def diff_views(exp, got):
     def nn(rows):
         # the empty string and null are the single value the format has for both
         return [[None if v == "" else v for v in r] for r in rows] if isinstance(rows, list) else rows
+    def cat_sorted(n, rows):
+        # a foreign encoder may store catalog rows in any order; they are compared as sets then
+        if sort_catalog and n in ("_Tables", "_Columns", "_Validation") and isinstance(rows, list):
+            return sorted(rows, key=lambda r: [X.vkey(v) for v in r])
+        return rows
     for n in sorted(set(exp["rows"]) | set(got["rows"])):
-        if nn(exp["rows"].get(n)) != nn(got["rows"].get(n)):
+        if cat_sorted(n, nn(exp["rows"].get(n))) != cat_sorted(n, nn(got["rows"].get(n))):
             out.append(("rows", "table %s holds %r, the relational model says %r" % (n, got["rows"].get(n), exp["rows"].get(n))))
             break
     if exp["streams"] != got["streams"]:
@@ -309,7 +314,7 @@ def invariant_problems(db, snap):
     return out
 
 
-def walk(cmds, outs, decode=None):
+def walk(cmds, outs, decode=None, start_db=None, sort_catalog=False, accounting=True):
     """returns a list of findings {kind, what, cmds, impl}"""
     findings = []
     db = None
@@ -331,6 +336,13 @@ def walk(cmds, outs, decode=None):
             db = SpecDB(sx[1])
             if o != "(ok ())":
                 report("gate", "create failed")
+                return findings
+            prev_snap = None
+            continue
+        if name in ("open_raw", "x_open_raw") and start_db is not None:
+            db = start_db.clone()
+            if o != "(ok ())":
+                report("open", "opening the independently encoded file failed (%s)" % o)
                 return findings
             prev_snap = None
             continue
@@ -402,7 +414,7 @@ def walk(cmds, outs, decode=None):
                 report("panic", "snapshot unreadable: %s" % o[:100])
                 continue
             view = snapshot_view(snap)
-            for kind, what in diff_views(expected_snapshot_view(db), view):
+            for kind, what in diff_views(expected_snapshot_view(db), view, sort_catalog):
                 if last_was_err and prev_snap is not None and snapshot_view(prev_snap) != view:
                     report("err-changed", "a rejected call changed the package: " + what)
                 elif last_was_reopen:
@@ -424,7 +436,7 @@ def walk(cmds, outs, decode=None):
             except Exception:
                 report("raw", "medium unreadable: %s" % o[:80])
                 continue
-            for p in msidec.check_saved_file(entries, db.expected_tables(), db.expected_rows(), decode):
+            for p in msidec.check_saved_file(entries, db.expected_tables(), db.expected_rows(), decode, accounting, sort_catalog):
                 report("wf", p)
             continue
     return findings
